@@ -12,10 +12,11 @@ structure ShuffleOut where
 deriving Repr
 
 /-- run the regenerated child on a descriptor layout: every open descriptor `k` refers to file
-`1000+k` and is close-on-exec (Go's convention for everything the launcher opened). -/
-def shuffle (files : List Int) (p0 p1 exec : Nat) (openFds : List Nat) (vfork : Bool) : Except String ShuffleOut := do
+`1000+k` and is close-on-exec (Go's convention for everything the launcher opened), except the
+numbers in `inh`, which the launcher holds inheritable (its own stdio, or whatever it inherited). -/
+def shuffle (files : List Int) (p0 p1 exec : Nat) (openFds : List Nat) (vfork : Bool) (inh : List Nat := []) : Except String ShuffleOut := do
   let o : Opts := { files := files, execFile := exec, syncFunc := !vfork }
-  let w0 : KW := { fds := openFds.map (fun k => (k, 1000 + k, true)), pipeIn := [0, 0] }
+  let w0 : KW := { fds := openFds.map (fun k => (k, 1000 + k, !inh.contains k)), pipeIn := [0, 0] }
   let out ← runChild (launchOf o p0 p1) w0
   -- the exec syscall is the last one; with ExecFile its first argument is the descriptor
   let execFile := match out.w.trace.head? with
@@ -36,8 +37,8 @@ def marker : Int := 2 ^ 64 - 1
 def expectTable (files : List Int) : List (Nat × Nat) :=
   (files.zipIdx.filter (fun p => p.1 != marker)).map (fun p => (p.2, 1000 + p.1.toNat))
 
-def okLayout (files : List Int) (p0 p1 exec : Nat) (openFds : List Nat) (vfork : Bool) : Bool :=
-  match shuffle files p0 p1 exec openFds vfork with
+def okLayout (files : List Int) (p0 p1 exec : Nat) (openFds : List Nat) (vfork : Bool) (inh : List Nat := []) : Bool :=
+  match shuffle files p0 p1 exec openFds vfork inh with
   | .ok r => r.table == expectTable files && r.exited.isNone &&
       (if exec > 0 then r.execFdFile == some (1000 + exec) else r.execFdFile.isNone) &&
       (!vfork || r.callerExec == Int.ofNat exec)
@@ -46,17 +47,17 @@ def okLayout (files : List Int) (p0 p1 exec : Nat) (openFds : List Nat) (vfork :
 /-! ### the hand model (Model/FdShuffle.lean) on the same layouts -/
 
 /-- the hand model's answer for a layout: (descriptor table after exec, file behind the exec descriptor) -/
-def handShuffle (files : List Int) (p1 exec : Nat) (openFds : List Nat) : List (Nat × Nat) × Option Nat :=
-  let t : FdShuffle.Table := fun k => if openFds.contains k then some (1000 + k, true) else none
+def handShuffle (files : List Int) (p1 exec : Nat) (openFds : List Nat) (inh : List Nat := []) : List (Nat × Nat) × Option Nat :=
+  let t : FdShuffle.Table := fun k => if openFds.contains k then some (1000 + k, !inh.contains k) else none
   let fl : List (Option Nat) := files.map (fun f => if f == marker then none else some f.toNat)
   let o := FdShuffle.shuffle t fl p1 (if exec > 0 then some exec else none)
   let hi := (openFds.foldl max 0) + files.length + 8
   ((List.range hi).filterMap (fun k => (FdShuffle.atExec o.t k).map (fun f => (k, f))), o.exec.bind (FdShuffle.fileAt o.t))
 
 /-- regenerated code and hand model agree on a layout -/
-def handAgrees (files : List Int) (p0 p1 exec : Nat) (openFds : List Nat) (vfork : Bool) : Bool :=
-  match shuffle files p0 p1 exec openFds vfork with
-  | .ok r => r.table == (handShuffle files p1 exec openFds).1 && r.execFdFile == (handShuffle files p1 exec openFds).2
+def handAgrees (files : List Int) (p0 p1 exec : Nat) (openFds : List Nat) (vfork : Bool) (inh : List Nat := []) : Bool :=
+  match shuffle files p0 p1 exec openFds vfork inh with
+  | .ok r => r.table == (handShuffle files p1 exec openFds inh).1 && r.execFdFile == (handShuffle files p1 exec openFds inh).2
   | .error _ => false
 
 end GoSandbox.Model.FdShuffleRun
